@@ -140,6 +140,7 @@ class Engine:
         self.timeout_ms = timeout_ms or solve.budget_ms()
         self.max_paths = max_paths
         self.stubs = {}            # id(function) -> handler(eng, args, kwargs)
+        self.fn_contracts = {}        # id(function) -> dict(handler=, inline_depth=1): recursion contract of a real function
         self.closure_contracts = {}   # nested function name -> dict(handler=, inline_depth=1): contract used at recursive calls
         self._closure_depth = {}
         self.invariants = {}       # (qualname, loop_index) -> dict(inv=, variant=, havoc_extra=)
@@ -497,12 +498,31 @@ class Engine:
         h = self.stubs.get(id(fn))
         if h is not None:
             return h(self, args, kwargs)
+        fc = self.fn_contracts.get(id(fn))
+        if fc is not None:
+            key = ('fn', id(fn))
+            d = self._closure_depth.get(key, 0)
+            if d >= fc.get('inline_depth', 1):
+                return fc['handler'](self, args, kwargs)       # modular: the function's own contract at recursive calls
+            self._closure_depth[key] = d + 1
+            try:
+                return self.call_fn_body(fn, args, kwargs)
+            finally:
+                self._closure_depth[key] = d
+        return self.call_fn_body(fn, args, kwargs)
+
+    def contract_for(self, fn, handler, inline_depth=1):
+        f = self.unwrap(getattr(fn, '__func__', fn))
+        self.fn_contracts[id(f)] = dict(handler=handler, inline_depth=inline_depth)
+        self._stub_keep = getattr(self, '_stub_keep', []) + [f]
+
+    def call_fn_body(self, fn, args, kwargs):
         symbolic = has_sym(args) or has_sym(kwargs)
         if not self.is_repo_fn(fn):
             if symbolic:
                 return self.builtin(fn, args, kwargs)
             return self.native(fn, args, kwargs)
-        if not symbolic and not self.force_interp and not self.stubs and not self._closure_symbolic(fn):
+        if not symbolic and not self.force_interp and not self.stubs and not self.fn_contracts and not self._closure_symbolic(fn):
             return self.native(fn, args, kwargs)
         if fn.__name__ in self.noop_names:
             return Opaque('<noop>')
@@ -775,6 +795,17 @@ class Engine:
             if hasattr(o, '__pyvc_isinstance__'):
                 return o.__pyvc_isinstance__(cs)
             return isinstance(o, c)
+        if f is dict:
+            return dict(*[(self.iterate(a) if not isinstance(a, dict) else a) for a in args], **kwargs)
+        if f is issubclass:
+            o, c = args
+            if hasattr(o, '__pyvc_issubclass__'):
+                return o.__pyvc_issubclass__(c if isinstance(c, tuple) else (c,))
+            if isinstance(o, type):
+                return issubclass(o, c)
+            raise RaiseEx(TypeError('issubclass() arg 1 must be a class'))
+        if f is type and len(args) == 3:
+            return NewType(args[0], args[1], args[2])
         if f is type:
             (o,) = args
             if isinstance(o, Obj):
@@ -1195,8 +1226,10 @@ class Engine:
 
     def bitand(self, a, b):
         """x & c for a constant c >= 0: sum of the selected bits (exact for all integers x)"""
-        if isinstance(a, Sym) and a.is_bool and isinstance(b, Sym) and b.is_bool:
-            return Sym(z3.And(a.e, b.e))
+        def _isb(v):
+            return isinstance(v, bool) or (isinstance(v, Sym) and v.is_bool)
+        if _isb(a) and _isb(b):
+            return Sym(z3.And(ZB(a), ZB(b)))
         if isinstance(a, int):
             a, b = b, a
         if not isinstance(b, int) or b < 0:
@@ -1218,8 +1251,10 @@ class Engine:
 
     def bitor(self, a, b):
         """a | b as a + b under a proved disjointness side condition (a = 0 mod 2^k, 0 <= b < 2^k)"""
-        if isinstance(a, Sym) and a.is_bool and isinstance(b, Sym) and b.is_bool:
-            return Sym(z3.Or(a.e, b.e))
+        def _isb(v):
+            return isinstance(v, bool) or (isinstance(v, Sym) and v.is_bool)
+        if _isb(a) and _isb(b):
+            return Sym(z3.Or(ZB(a), ZB(b)))
         x, y = Z(a), Z(b)
         cands = []
         for c, o in ((b, (x, y)), (a, (y, x))):
@@ -1768,6 +1803,22 @@ class Engine:
                 return r
             env.pop(tv, None)     # after the loop Python keeps the last taken value; not modelled -> poisoned
             return r
+        if hasattr(it, '__pyvc_seq__'):
+            # ghost sequence of symbolic length: index loop with a hidden counter; env['__idx__'] is the next index
+            if spec is None:
+                raise Unsupported(f'for over a ghost sequence without invariant ({lid})')
+            n = it.__pyvc_seq__()
+            env['__idx__'] = Sym(z3.IntVal(0))
+
+            def test():
+                if not self.fork(Z(env['__idx__']) < n):
+                    return False
+                self.assign(s.target, it.elem(self, Z(env['__idx__'])), env, g)
+                return True
+
+            def post_body():
+                env['__idx__'] = Sym(z3.simplify(Z(env['__idx__']) + 1))
+            return self.cut_loop(s, env, g, spec, lid, test=test, post_body=post_body, extra_havoc={'__idx__'})
         if spec is not None and not isinstance(it, SymRange):
             raise Unsupported('invariant on a for loop over a non-range iterable')
         for v in self.iterate(it):
@@ -1839,6 +1890,14 @@ class Engine:
         self.ex(s.orelse, env, g)
         if spec.get('after') and not has_tail:
             spec['after'](self, env, f'{lid}.after')
+
+
+class NewType:
+    """type(name, bases, namespace) with symbolic parts: a record of the three arguments"""
+    __pyvc_symbolic__ = True
+
+    def __init__(self, name, bases, ns):
+        self.name, self.bases, self.ns = name, bases, ns
 
 
 class SymConcat:
